@@ -181,23 +181,64 @@ theorem flags_lt (f : Flags) : f.toNat < 256 ^ P_FLAGS := by
   obtain ⟨a, b, c⟩ := f
   cases a <;> cases b <;> cases c <;> decide
 
-/-- the header of a node that gets no with-defaults annotation -/
-theorem header_at (P : Params) (hP : P.Ok) (d : Nat) (o : POpts) (S : LSchema) (n : DNode) (ops : List Op)
-    (ho : headerOps o S n = some ops) (ht : wdTagged o S n = false) (K : List Op) (r : R) (h : At P d (ops ++ K) r) :
-    ∃ r', pHeader P S r = some (r', [], n.flags) ∧ At P d K r' ∧ n.metas = [] := by
-  simp only [headerOps, ht, Bool.false_eq_true, ↓reduceIte] at ho
+/-- the header of a node: metadata count, the with-defaults annotation when the printer adds it, flags.  The annotation comes
+back as an ordinary metadata instance -/
+theorem header_at (P : Params) (hP : P.Ok) (d : Nat) (o : POpts) (S : LSchema)
+    (hwd : ∀ w, S.wd = some w → unpackRev (packRev w) = w) (n : DNode) (ops : List Op)
+    (ho : headerOps o S n = some ops) (K : List Op) (r : R) (h : At P d (ops ++ K) r) :
+    ∃ r', pHeader P S r = some (r', if wdTagged o S n then [wdMeta] else [], n.flags) ∧ At P d K r' ∧ n.metas = [] := by
+  have c1 : R_METACOUNT = P_METACOUNT := rfl
+  have c2 : R_FLAGS = P_FLAGS := rfl
+  have c3 : R_METANAME = P_WDNAME := rfl
+  have c4 : R_METAVAL = P_WDVAL := rfl
+  simp only [headerOps] at ho
   split at ho
   · simp at ho
   · rename_i hm
-    simp only [Option.some.injEq] at ho
-    subst ho
-    have c1 : R_METACOUNT = P_METACOUNT := rfl
-    have c2 : R_FLAGS = P_FLAGS := rfl
-    simp only [List.cons_append, List.nil_append] at h
-    obtain ⟨r1, e1, a1⟩ := rdNum_at P hP d P_METACOUNT 0 (by decide) _ r h
-    obtain ⟨r2, e2, a2⟩ := rdNum_at P hP d P_FLAGS n.flags.toNat (flags_lt _) _ r1 a1
-    refine ⟨r2, ?_, a2, by simpa using hm⟩
-    simp only [pHeader, c1, c2, e1, pMetas, e2, flags_rt]
+    have hm' : n.metas = [] := by simpa using hm
+    by_cases ht : wdTagged o S n = true
+    · simp only [ht, ↓reduceIte] at ho ⊢
+      obtain ⟨x1, y1, hx1, hy1, rfl⟩ := cat_eq_some ho
+      obtain ⟨x2, y2, hx2, hy2, rfl⟩ := cat_eq_some hy1
+      obtain ⟨x3, y3, hx3, hy3, rfl⟩ := cat_eq_some hy2
+      obtain ⟨x4, y4, hx4, hy4, rfl⟩ := cat_eq_some hy3
+      simp only [Option.some.injEq] at hx1 hy4
+      subst hx1 hy4
+      have hsome : S.wd.isSome = true := by
+        simp only [wdTagged, Bool.and_eq_true] at ht
+        exact ht.1.2
+      obtain ⟨w, hw⟩ := Option.isSome_iff_exists.mp hsome
+      simp only [hw, Option.getD_some] at hx2
+      simp only [List.cons_append, List.nil_append, List.append_assoc] at h
+      obtain ⟨r1, e1, a1⟩ := rdNum_at P hP d P_METACOUNT 1 (by decide) _ r h
+      obtain ⟨r2, e2, a2⟩ := model_at P hP d wdModName w false x2 hx2 (by decide) _ r1 a1
+      obtain ⟨r3, r4, e3, e4, a4⟩ := str_at P hP d P_WDNAME wdAnnotName x3 hx3 _ r2 a2
+      obtain ⟨r5, r6, e5, e6, a6⟩ := str_at P hP d P_WDVAL wdAnnotVal x4 hx4 _ r4 a4
+      obtain ⟨r7, e7, a7⟩ := rdNum_at P hP d P_FLAGS n.flags.toNat (flags_lt _) _ r6 a6
+      refine ⟨r7, ?_, a7, hm'⟩
+      have hmm : modMatches wdModName (unpackRev (packRev w)) wdModName w = true := by
+        rw [hwd w hw]; simp [modMatches]
+      have hn1 : (wdAnnotName != wdAnnotName) = false := by decide
+      have hn2 : (wdAnnotVal != wdAnnotVal && wdAnnotVal != wdAnnotFalse) = false := by decide
+      simp only [pHeader, c1, c2, c3, c4, e1, pMetas, e2, hw, hmm, Bool.not_true, Bool.false_eq_true, ↓reduceIte, e3, e4, e5, e6,
+        hn1, hn2, e7, flags_rt, wdMeta]
+    · have ht' : wdTagged o S n = false := by simpa using ht
+      simp only [ht', Bool.false_eq_true, ↓reduceIte, Option.some.injEq] at ho ⊢
+      subst ho
+      simp only [List.cons_append, List.nil_append] at h
+      obtain ⟨r1, e1, a1⟩ := rdNum_at P hP d P_METACOUNT 0 (by decide) _ r h
+      obtain ⟨r2, e2, a2⟩ := rdNum_at P hP d P_FLAGS n.flags.toNat (flags_lt _) _ r1 a1
+      refine ⟨r2, ?_, a2, hm'⟩
+      simp only [pHeader, c1, c2, e1, pMetas, e2, flags_rt]
+
+/-- skipping an annotation with the widths it was printed with lands behind it -/
+theorem metaSkip_at (P : Params) (hP : P.Ok) (d : Nat) (name val : Bytes) (x y : List Op) (hx : strOps P_METANAME name = some x)
+    (hy : strOps P_METAVAL val = some y) (K : List Op) (r : R) (h : At P d (x ++ (y ++ K)) r) :
+    At P d K (pMetaSkipW P P_METANAME P_METAVAL r) := by
+  obtain ⟨r1, r2, e1, e2, a2⟩ := str_at P hP d P_METANAME name x hx _ r h
+  obtain ⟨r3, r4, e3, e4, a4⟩ := str_at P hP d P_METAVAL val y hy _ r2 a2
+  simp only [pMetaSkipW, e1, e2, e3, e4]
+  exact a4
 
 /-! ### term values -/
 
